@@ -52,10 +52,20 @@ type Case struct {
 	Target int     `json:"target"`
 	A      []*Cell `json:"a"`
 	B      []*Cell `json:"b"`
+	Hist   []HOp   `json:"hist"` // operations on ONE reused builder (all columns nullable)
 	BN     int     `json:"bn"` // B is built with the descriptor of the first BN columns (0 = all): a row written before nullable columns were appended to the schema
 }
 
+// HOp is one step of a builder history: put | build | permissive | prefix | prefix_nr | recycle.
+type HOp struct {
+	Op string `json:"op"`
+	I  int    `json:"i,omitempty"`
+	K  int    `json:"k,omitempty"`
+	C  *Cell  `json:"c,omitempty"`
+}
+
 type Obs struct {
+	Hist      [][]int `json:"hist"` // tuples produced along the history
 	A         []int   `json:"a"`
 	Same      bool    `json:"same"`
 	Variants  string  `json:"variants,omitempty"` // which build variant differed
@@ -479,6 +489,66 @@ func Run(raw json.RawMessage) (any, error) {
 			}
 		}
 		return out
+	}
+	// builder history on one reused builder; every produced tuple is also built by a fresh builder from the
+	// puts since the last Build / BuildPrefix / Recycle
+	o.Hist = [][]int{}
+	if len(c.Hist) > 0 {
+		tbh := newTB()
+		var since []HOp
+		for _, h := range c.Hist {
+			var got val.Tuple
+			produced := false
+			switch h.Op {
+			case "put":
+				e.put(tbh, h.I, encs[h.I], h.C, false)
+				since = append(since, h)
+				continue
+			case "build", "permissive":
+				var err error
+				if h.Op == "build" {
+					got, err = tbh.Build(e.ctx, e.bp)
+				} else {
+					got, err = tbh.BuildPermissive(e.ctx, e.bp)
+				}
+				if err != nil {
+					panic(err)
+				}
+				produced = true
+			case "prefix":
+				got = tbh.BuildPrefix(e.bp, h.K)
+				produced = true
+			case "prefix_nr":
+				got = tbh.BuildPrefixNoRecycle(e.bp, h.K)
+				produced = true
+			case "recycle":
+				tbh.Recycle()
+			default:
+				panic("unknown history op")
+			}
+			if produced {
+				got = append(val.Tuple{}, got...)
+				o.Hist = append(o.Hist, fromBytes(got))
+				fresh := newTB()
+				for _, p := range since {
+					e.put(fresh, p.I, encs[p.I], p.C, false)
+				}
+				var want val.Tuple
+				switch h.Op {
+				case "build", "permissive":
+					want, _ = fresh.BuildPermissive(e.ctx, e.bp)
+				default:
+					want = fresh.BuildPrefixNoRecycle(e.bp, h.K)
+				}
+				if !bytes.Equal(want, got) {
+					o.Same = false
+					o.Variants += "history-vs-fresh "
+				}
+			}
+			if h.Op != "prefix_nr" {
+				since = nil
+			}
+		}
 	}
 	o.AddrsA = addrs(c.A)
 	o.AddrsB = addrs(c.B)[:bn]
